@@ -28,7 +28,7 @@ REQUIRED_CLAUSES = ["object-roundtrip", "data-roundtrip"]
 TIMEOUT = {"quick": 900, "thorough": 3400}
 
 SAVE_CTX = ["none", "1/cm", "eV", "eig", "1/cm+eig"]
-KINDS = ["TimeAxis", "FrequencyAxis", "ValueAxis", "DFunction", "Operator", "Hamiltonian", "DensityMatrix", "ReducedDensityMatrix", "TransitionDipoleMoment",
+KINDS = ["TimeAxis", "FrequencyAxis", "ValueAxis", "DFunction", "DFunction-frequency", "Operator", "Hamiltonian", "DensityMatrix", "ReducedDensityMatrix", "TransitionDipoleMoment",
          "Molecule", "Aggregate-built", "Aggregate-unbuilt", "CorrelationFunction", "SpectralDensity", "AbsSpectrum", "AbsSpectrumContainer",
          "TwoDResponse", "TwoDResponseContainer", "RelaxationTensor", "scopy/savedir"]
 BASIS_KINDS = {"Operator", "Hamiltonian", "DensityMatrix", "ReducedDensityMatrix", "TransitionDipoleMoment", "RelaxationTensor", "Aggregate-built"}
@@ -50,10 +50,19 @@ def obs(qr, o, kind):
     """observable data of an object, read in the current (none) context"""
     if kind in ("TimeAxis", "FrequencyAxis", "ValueAxis"):
         return {"data": numpy.array(o.data), "start": float(o.start), "step": float(o.step), "length": int(o.length)}
-    if kind in ("DFunction", "CorrelationFunction", "SpectralDensity", "AbsSpectrum"):
-        d = {"data": numpy.array(o.data), "axis": numpy.array(o.axis.data)}
+    if kind in ("DFunction", "DFunction-frequency", "CorrelationFunction", "SpectralDensity", "AbsSpectrum"):
+        ax = numpy.array(o.axis.data)
+        d = {"data": numpy.array(o.data), "axis": ax}
         if kind in ("CorrelationFunction", "SpectralDensity"):
             d["lamb"] = float(o.lamb)
+        # values between the grid points, as the object interpolates them (linear and spline mode)
+        xs = [float(ax[j] + 0.37 * (ax[1] - ax[0])) for j in (1, len(ax) // 2, len(ax) - 3)]
+        # (the mode used when none is named depends on whether splines were used before: not an observable of the stored data)
+        for mode in ("linear", "spline"):
+            try:
+                d["at:" + mode] = numpy.array([o.at(x, approx=mode) for x in xs])
+            except Exception as e:
+                d["at:" + mode] = numpy.array([numpy.nan])
         return d
     if kind in ("Operator", "DensityMatrix", "ReducedDensityMatrix", "TransitionDipoleMoment"):
         return {"data": numpy.array(o.data)}
@@ -118,6 +127,12 @@ def make_object(qr, kind, rng, work):
         return qr.ValueAxis(r3(rng.uniform(-5, 5)), int(rng.integers(3, 40)), r3(rng.uniform(0.1, 3.0))), None
     if kind == "DFunction":
         return qr.DFunction(t, rng.normal(size=60) + 1j * rng.normal(size=60)), None
+    if kind == "DFunction-frequency":
+        with qr.energy_units("1/cm"):
+            wax = qr.FrequencyAxis(r3(rng.uniform(9000, 12000)), 50, r3(rng.uniform(5.0, 30.0)))
+        f = qr.DFunction(wax, numpy.exp(-numpy.linspace(-2, 2, 50) ** 2) * (1.0 + (0.3j if rng.random() < 0.5 else 0.0)))
+        f.at(float(wax.data[3] + 0.5 * (wax.data[1] - wax.data[0])), approx="spline")      # interpolation used before saving
+        return f, None
     if kind == "Operator":
         return qm.Operator(data=rng.normal(size=(n, n))), Hop
     if kind == "Hamiltonian":
